@@ -23,6 +23,17 @@ def load_prop(pid):
     return importlib.import_module(f"vf.props.{pid.lower()}")
 
 
+def load_floors(mod, tier):
+    """Calibrated floors (vf/floors.json, see tools/calibrate_floors.py) or the module's literals."""
+    path = os.path.join(os.path.dirname(os.path.abspath(__file__)), "floors.json")
+    if os.path.exists(path):
+        with open(path) as fh:
+            fl = json.load(fh).get(mod.ID, {}).get(tier)
+        if fl:
+            return fl
+    return getattr(mod, "FLOORS", {}).get(tier, {})
+
+
 def merge_cov(results):
     tot = collections.Counter()
     for r in results:
@@ -78,7 +89,7 @@ def write_evidence(mod, tier, seed, results, wall, n_viol, known_seen, floors_mi
             "case_status": dict(status),
             "observed": {k: (int(v) if float(v).is_integer() else float(v))
                          for k, v in sorted(cov.items())},
-            "floors": getattr(mod, "FLOORS", {}).get(tier, {}),
+            "floors": load_floors(mod, tier),
             "floors_missed": floors_missed,
             "known_findings_seen": known_seen,
             "inconclusive_notes": dict(notes.most_common(10)),
@@ -179,7 +190,7 @@ def main(argv=None):
     n_viol = sum(len(x[2]) for x in new)
 
     cov = merge_cov(results)
-    floors = getattr(mod, "FLOORS", {}).get(a.tier, {})
+    floors = load_floors(mod, a.tier)
     sc = a.scale if a.scale < 1 else 1.0
     missed = {k: [int(cov.get(k, 0)), v] for k, v in floors.items() if cov.get(k, 0) < v * sc}
     n_inc = sum(1 for r in results if r.get("status") in ("inconclusive", "errored"))
